@@ -1097,6 +1097,36 @@ theorem le_toRat_ceil {x : F64} (hf : isFinite x = true) : toRat x ≤ toRat (ce
 theorem toRat_ceil_lt {x : F64} (hf : isFinite x = true) : toRat (ceil x) < toRat x + 1 := by
   rw [toRat_ceil hf]; exact Rat.ceil_lt
 
+theorem isFinite_floor (x : F64) : isFinite (floor x) = isFinite x := by
+  cases x with
+  | fin q => simp only [floor]; split <;> rfl
+  | _ => rfl
+
+/-- `math.Floor` of a finite value is the integer floor -/
+theorem toRat_floor {x : F64} (hf : isFinite x = true) : toRat (floor x) = ((toRat x).floor : Rat) := by
+  cases x with
+  | nan => exact Bool.noConfusion hf
+  | inf _ => exact Bool.noConfusion hf
+  | zero _ =>
+    show (0 : Rat) = (((0 : Rat).floor : Int) : Rat)
+    have := Rat.floor_intCast 0
+    rw [Rat.intCast_zero] at this
+    rw [this, Rat.intCast_zero]
+  | fin q =>
+    simp only [floor]
+    by_cases h : q.floor = 0
+    · rw [if_pos h]; show (0 : Rat) = ((q.floor : Int) : Rat); rw [h, Rat.intCast_zero]
+    · rw [if_neg h]; rfl
+
+/-- `math.Abs` -/
+theorem toRat_abs (x : F64) : toRat (abs x) = (toRat x).abs := by
+  cases x with
+  | fin q => simp only [abs, toRat, Rat.abs]; split <;> grind
+  | _ => simp [abs, toRat]
+
+theorem isFinite_abs (x : F64) : isFinite (abs x) = isFinite x := by
+  cases x <;> rfl
+
 /-! #### arithmetic on finite values -/
 
 theorem WF_zero (s : Bool) : WF (.zero s) := trivial
@@ -1108,6 +1138,14 @@ theorem WF_neg {x : F64} (h : WF x) : WF (neg x) := by
   | fin q =>
     obtain ⟨hr, hlt, h0⟩ := WF.rep h
     exact WF_fin_iff.2 ⟨hr.neg, by rwa [Rat.abs_neg], by grind⟩
+  | _ => trivial
+
+theorem WF_abs {x : F64} (h : WF x) : WF (abs x) := by
+  cases x with
+  | fin q =>
+    simp only [abs]; split
+    · exact WF_neg (x := .fin q) h
+    · exact h
   | _ => trivial
 
 theorem roundNE_of_WF {q : Rat} (h : WF (.fin q)) : roundNE q = .fin q := h.2
@@ -1203,6 +1241,54 @@ theorem mul_negone_left {x : F64} (h : WF x) : mul (ofInt (-1)) x = neg x := by
 theorem mul_mono_left {a b d : Rat} (hd : 0 ≤ d) (h : a ≤ b) :
     le (roundNE (a * d)) (roundNE (b * d)) = true :=
   le_roundNE_of_le (Rat.mul_le_mul_of_nonneg_right h hd)
+
+/-! #### `math.Sqrt`: sign and NaN-freeness -/
+
+theorem sqrtRat_arg_nonneg (n : Nat) (k : Int) : 0 ≤ (n : Rat) / pow2 k := by
+  rw [le_div_iff (pow2_pos k), Rat.zero_mul]; exact Rat.natCast_nonneg
+
+/-- `sqrtRat q` is `roundNE` of a non-negative rational -/
+theorem sqrtRat_eq (q : Rat) : ∃ t : Rat, 0 ≤ t ∧ sqrtRat q = roundNE t := by
+  unfold sqrtRat
+  simp only []
+  split <;> split <;> exact ⟨_, sqrtRat_arg_nonneg _ _, rfl⟩
+
+theorem WF_sqrt {x : F64} (h : WF x) : WF (sqrt x) := by
+  cases x with
+  | nan => trivial
+  | inf s => cases s <;> trivial
+  | zero _ => trivial
+  | fin q =>
+    simp only [sqrt]; split
+    · trivial
+    · obtain ⟨t, _, e⟩ := sqrtRat_eq q; rw [e]; exact WF_roundNE t
+
+/-- the square root is never negative (NaN and infinities read as 0) -/
+theorem toRat_sqrt_nonneg (x : F64) : 0 ≤ toRat (sqrt x) := by
+  cases x with
+  | nan => exact Rat.le_refl
+  | inf s => cases s <;> exact Rat.le_refl
+  | zero _ => exact Rat.le_refl
+  | fin q =>
+    simp only [sqrt]; split
+    · exact Rat.le_refl
+    · obtain ⟨t, ht, e⟩ := sqrtRat_eq q; rw [e]; exact roundNE_nonneg ht
+
+/-- `math.Sqrt` of a non-negative finite value is not NaN -/
+theorem sqrt_ne_nan {x : F64} (hf : isFinite x = true) (h0 : 0 ≤ toRat x) : sqrt x ≠ .nan := by
+  cases x with
+  | nan => exact Bool.noConfusion hf
+  | inf _ => exact Bool.noConfusion hf
+  | zero _ => exact F64.noConfusion
+  | fin q =>
+    simp only [sqrt]
+    rw [toRat_fin] at h0
+    rw [if_neg (by grind)]
+    obtain ⟨t, _, e⟩ := sqrtRat_eq q; rw [e]; exact roundNE_ne_nan t
+
+/-- `math.Sqrt` of a negative finite value is NaN -/
+theorem sqrt_neg_eq_nan {q : Rat} (h : q < 0) : sqrt (.fin q) = .nan := by
+  simp only [sqrt]; rw [if_pos h]
 
 /-! #### bit patterns decode to well-formed values -/
 
